@@ -5,7 +5,7 @@ import os
 import re
 
 from vlib import mirutil
-from vlib.facts import CheckError, REPO, pat_variants, walk
+from vlib.facts import CheckError, REPO, pat_variants, walk, peel
 from vlib.report import RuleResult, VERIF
 
 PANICKY = re.compile(
@@ -892,4 +892,107 @@ def untrusted_alloc(F):
     r.count("sized_allocations", n)
     r.obligations = max(r.obligations, 1)
     r.discharged = max(r.discharged, 1) if not r.violations else r.discharged
+    return r
+
+
+def parse_recursion(F):
+    """R-PARSE-RECURSION: a stack overflow aborts the process (SIGABRT) — it is neither a MIR panic edge nor catchable.  Every
+    recursion cycle on the parse call graph must therefore carry a depth guard: an integer parameter that each recursive call
+    passes on changed by a literal (`depth + 1` / `fuel - 1`) and that is compared with a constant under a guard that leaves
+    the function before the recursive call is reached."""
+    r = RuleResult("R-PARSE-RECURSION",
+                   "every recursion cycle reachable from Module::parse / Component::parse is bounded by a depth parameter: the recursive call passes `p ± literal` and is dominated by a diverging guard comparing p with a constant")
+    roots = [f["path"] for f in F.fns if f["name"] in ("parse", "parse_internal", "parse_comp") and (f.get("self_adt") or "").endswith(("::Module", "::Component"))]
+    g = mirutil.build_callgraph(F)
+    seen, _parent = mirutil.reachable_fns(F, roots, g)
+    r.count("reachable_fns", len(seen))
+    # Tarjan, iterative
+    index, low, onst, st, sccs = {}, {}, set(), [], []
+    counter = [0]
+    for root in sorted(seen):
+        if root in index:
+            continue
+        work = [(root, iter(sorted(w for w in g.get(root, ()) if w in seen)))]
+        index[root] = low[root] = counter[0]; counter[0] += 1; st.append(root); onst.add(root)
+        while work:
+            v, it = work[-1]
+            adv = False
+            for w in it:
+                if w not in index:
+                    index[w] = low[w] = counter[0]; counter[0] += 1; st.append(w); onst.add(w)
+                    work.append((w, iter(sorted(x for x in g.get(w, ()) if x in seen))))
+                    adv = True
+                    break
+                elif w in onst:
+                    low[v] = min(low[v], index[w])
+            if adv:
+                continue
+            work.pop()
+            if work:
+                low[work[-1][0]] = min(low[work[-1][0]], low[v])
+            if low[v] == index[v]:
+                comp = []
+                while True:
+                    w = st.pop(); onst.discard(w); comp.append(w)
+                    if w == v:
+                        break
+                if len(comp) > 1 or v in g.get(v, ()):
+                    sccs.append(sorted(comp))
+    r.count("recursion_cycles", len(sccs))
+    from vlib.facts import guard_conditions
+
+    def int_params(fn):
+        out = {}
+        for i, p in enumerate(fn.get("params") or []):
+            if p["ty"] in ("usize", "u32", "u64", "u16", "u8", "i32", "i64", "isize") and p["pat"].get("k") == "Binding":
+                out[p["pat"]["hid"]] = (i, p["pat"].get("name"))
+        return out
+
+    for comp in sccs:
+        key = " → ".join(c.split("::")[-1] for c in comp)
+        if len(comp) > 1:
+            r.undecided("recursion through %d functions (%s): the depth argument is not followed across them" % (len(comp), key))
+            continue
+        fn = F.by_path[comp[0]][0]
+        body, owner = _hir_body(F, fn) if fn.get("kind") != "Closure" else (None, None)
+        if body is None:
+            r.undecided("no HIR body for %s" % comp[0])
+            continue
+        ips = int_params(fn)
+        calls = [c for c in walk(body) if c.get("k") in ("Call", "MethodCall") and ((c.get("inst") or c.get("callee") or "") == fn["path"] or (c.get("fres") or {}).get("path") == fn["path"])]
+        if not calls:
+            # resolved through MIR only (e.g. via a closure): shape not recognised
+            r.undecided("recursive call of %s not found in its HIR body" % fn["name"])
+            continue
+        r.analysed.append(fn["path"])
+        for c in calls:
+            args = ([c["recv"]] if c["k"] == "MethodCall" else []) + list(c["args"])
+            bounded = None
+            for hid, (i, nm) in ips.items():
+                if i >= len(args):
+                    continue
+                a = peel(args[i])
+                if not (a.get("k") == "Binary" and a["op"] in ("+", "-")):
+                    continue
+                l, rr = peel(a["a"]), peel(a["b"])
+                if not (l.get("k") == "Path" and l.get("res", {}).get("hid") == hid and rr.get("k") == "Lit"):
+                    continue
+                # a guard on `nm` that leaves before this call
+                for pol, cond in guard_conditions(body, c):
+                    if pol in ("pat", "notpat"):
+                        continue
+                    cc = peel(cond)
+                    if cc.get("k") == "Binary" and cc["op"] in ("<", "<=", ">", ">=", "==", "!="):
+                        sides = [peel(cc["a"]), peel(cc["b"])]
+                        has_p = any(s_.get("k") == "Path" and s_.get("res", {}).get("hid") == hid for s_ in sides)
+                        has_c = any(s_.get("k") == "Lit" or (s_.get("k") == "Path" and s_.get("res", {}).get("r") in ("const", "def", "assoc_const")) or (s_.get("k") == "Path" and "Const" in str(s_.get("res", {}).get("dk", ""))) for s_ in sides)
+                        if has_p and has_c:
+                            bounded = nm
+            r.ob(bounded is not None, {"fn": fn["path"], "recursive call": snippet(os.environ.get("ORCA_ANALYSED_REPO", REPO), fn["file"], c["sp"])[:80], "depth parameter": bounded})
+            if bounded is None:
+                r.violate("%s | unbounded recursion" % fn["path"], F.loc(fn, c),
+                          "%s calls itself once per nesting level of the input with no depth guard: a small input nested a few hundred levels deep overflows the stack, which aborts the process instead of returning an error" % fn["name"])
+    r.obligations = max(r.obligations, 1)
+    if not r.violations and r.discharged == 0:
+        r.discharged = r.obligations
     return r
